@@ -251,6 +251,24 @@ def check_variance(case, out):
             ov.update(xs[i], ws[i])
         with np.errstate(all='ignore'):
             single = cut(out, 'single-variance', ov.parallelVariance)
+        # streaming use of ONE accumulator: asked for the variance part-way, then fed the rest -- the interim answer is
+        # the variance of what was seen so far and asking must not disturb what comes after
+        if n >= 4:
+            out.applies('streaming')
+            k_ = n // 2
+            ov2 = OnlineVariance()
+            for i in range(k_):
+                ov2.update(xs[i], ws[i])
+            with np.errstate(all='ignore'):
+                mid = cut(out, 'single-variance', ov2.parallelVariance)
+            for i in range(k_, n):
+                ov2.update(xs[i], ws[i])
+            with np.errstate(all='ignore'):
+                fin = cut(out, 'single-variance', ov2.parallelVariance)
+            mid_ref = np.asarray(two_pass(xs[:k_], ws[:k_])[1], dtype=float)
+            stream = (np.asarray(mid, dtype=float), mid_ref, np.asarray(fin, dtype=float), np.array(ov2.mean, dtype=float, copy=True))
+        else:
+            stream = None
     except CutError:
         return out
 
@@ -282,6 +300,14 @@ def check_variance(case, out):
             out.fail('ranks==two-pass@' + tag,
                      'rank %d of %d (sizes %s) got %r want %r' % (r, nr, sizes, v, var))
             break
+    if stream is not None:
+        mid, mid_ref, fin, mean_after = stream
+        if k_ >= 2 and (mid.shape != mid_ref.shape or not close(mid, mid_ref, rtol=rtol, atol=atol)):
+            out.fail('streaming@interim', 'variance of the first %d samples: got %r want %r' % (k_, mid, mid_ref))
+        if fin.shape != var.shape or not close(fin, var, rtol=rtol, atol=atol):
+            out.fail('streaming@after-interim-query', 'after an interim query the final variance is %r, two-pass %r' % (fin, var))
+        if not close(mean_after, np.asarray(mean, dtype=float), rtol=1e-9, atol=1e-9 * (abs(off) + abs(sp))):
+            out.fail('streaming@mean', 'running mean after the queries %r, weighted mean %r' % (mean_after, mean))
     out.applies('ranks-agree')
     for r in range(1, nr):
         if not np.array_equal(np.asarray(res[r]), np.asarray(res[0]), equal_nan=True):
